@@ -129,6 +129,19 @@ HAND = [
     "probe($.n)", "$.list.select(probe($))", "$.nested.select(probe($))",
     "$.list.where(probe($) > 1).select(probe($))",
     "$.recs.select(probe($.name))", "[probe(1), $.list.orderBy(probe($))]",
+    # groupBy: both supported aggregator conventions (the current one gets
+    # the list of values, the 1.1.1 one gets [key, values]) and no aggregator
+    "$.recs.groupBy($.v, $.name)", "$.recs.groupBy($.v, $.name, $.len())",
+    "$.recs.groupBy($.v, $.name, [$[0], $[1].len()])",
+    "$.recs.groupBy($.v, $.v, $.sum())",
+    "$.recs.groupBy($.v, $.v, [$[0], $[1].sum()])",
+    "$.recs.groupBy($.name, $.v, $.sum())",
+    "$.recs.groupBy($.name, $.v, [$[0], $[1].sum()])",
+    "$.list.groupBy($ mod 2, $, $.sum())",
+    "$.list.groupBy($ mod 2, $, [$[0], $[1].sum()])",
+    "$.list.groupBy($ mod 2, $, $.noSuchMethod())",
+    "$.nested.groupBy($.len(), $, $.len())",
+    "$.nested.groupBy($.len(), $.len(), [$[0], $[1].len()])",
 ]
 
 
@@ -230,12 +243,37 @@ def gen_stmt(w, flavour_bias):
             'has_data': c['has_data']}
 
 
+_themes = []
+
+
+def themes():
+    """HAND statements grouped by the function names they mention: the
+    variants of one function (its calling conventions, its overloads) are
+    what state kept behind that function's definition would confuse."""
+    if not _themes:
+        import re
+        by = {}
+        for h in HAND:
+            for name in set(re.findall(r'([A-Za-z_]\w*)\(', h)):
+                by.setdefault(name, []).append(h)
+        for name in sorted(by):
+            if len(by[name]) >= 2:
+                _themes.append((name, by[name]))
+    return _themes
+
+
 def gen_case(seeds, params, index):
     w = seeds.stream('workload')
     f = seeds.stream('faults')
     faulty = index % 2 == 1          # separate batches: even = fault free
     nstm = w.choice([2, 3, 4, 6])
-    stmts = [gen_stmt(w, 0.15) for _ in range(nstm)]
+    if index % 8 in (4, 5):
+        th = themes()
+        name, group = th[(index // 8) % len(th)]
+        stmts = [{'kind': 'text', 'flavour': 'default',
+                  'expr': w.choice(group)} for _ in range(nstm)]
+    else:
+        stmts = [gen_stmt(w, 0.15) for _ in range(nstm)]
     docs = [gen_doc(w) for _ in range(w.choice([1, 2, 3]))]
     for s in stmts:
         if s.get('has_data'):
